@@ -11,7 +11,7 @@ def families(tier):
     yield "C13 structured ref states (default layout)", spaces.c13_default_layout(tier)
     yield "C14 directive placements (length <= 1)", spaces.c14_short()
     yield "C11 decoy sequences (length <= 2)", spaces.c11_short(2)
-    yield "multi-insertion family", spaces.multi_insertion(big_counts=(5000,) if tier == "thorough" else ())
+    yield "multi-insertion family", spaces.multi_insertion(big_counts=(1000, 5000) if tier == "thorough" else ())
     yield "token sequences of length <= %d" % (3 if tier == "thorough" else 2), spaces.token_sequences(3 if tier == "thorough" else 2)
     yield "real corpora%s" % (" + single-token-edit neighbourhoods" if tier == "thorough" else ""), spaces.corpus_files(tier == "thorough", None if tier == "thorough" else 200_000)
     if tier == "thorough":
